@@ -129,20 +129,27 @@ class DAG(Graph):
         logging.debug("Removing edge (%s, %s).", src, dest)
         self.adjacency_table[src].remove(dest)
 
-    def dfs_subtree(self, src, par=None):
+    def dfs_subtree(self, src, par=None, visited=None):
         """
         Create a subtree of the DAG starting at src in DFS order.
 
         :param src: Source node name to begin search.
         :param par: Name of parent node to the specified source node.
+        :param visited: Set of nodes already listed (used when recursing).
         :returns: A list representing the path taken by DFS.
         :returns: A dictionary containing a mapping from node to parent node.
         """
+        if visited is None:
+            visited = set()
+        visited.add(src)
         path = [src]
         parent = {src: par}
         for node in self.adjacency_table[src]:
+            # List every node once, even when reachable along several paths.
+            if node in visited:
+                continue
             parent[node] = src
-            subpath, children = self.dfs_subtree(node, src)
+            subpath, children = self.dfs_subtree(node, src, visited)
             path = path + subpath
             parent.update(children)
 
